@@ -138,7 +138,7 @@ impl Space for C12Space {
         self.alphabet
             .iter()
             .enumerate()
-            .filter(|(_, s)| Renderer::applicable(self.kit, &families, MAX_NESTING, false, s))
+            .filter(|(_, s)| Renderer::applicable(self.kit, &families, MAX_NESTING, false, segs.last(), s))
             .map(|(i, _)| {
                 let mut next = state.clone();
                 next.push(i as u16);
